@@ -12,8 +12,9 @@ python3 - "$D" "$PROP" "$NEEDS" "$OUT" "$*" <<'PY'
 import json,sys
 d,prop,needs,out,checks=sys.argv[1:6]
 lines=[l for l in out.splitlines() if l.startswith('confirm:') or l.startswith('check ')]
+notes=[l for l in out.splitlines() if l.startswith('note:')]
 det=[l.split(':')[0].split()[1] for l in lines if l.startswith('check ') and 'exit=1' in l]
 json.dump({"breaks_property":prop,"needs_to_manifest":needs,
  "confirmed":lines[0] if lines else "", "ran":"checks/try_mutant.sh (scratch worktree: suite with patch, TestDemo with/without; then git -C /repo apply, quick checks "+checks+", git checkout)",
- "results":lines[1:],"detected_by":det,"source":"written by an independent sub-agent given only the property text and a scratch worktree"},open(d+'/meta.json','w'),indent=1)
+ "results":lines[1:],"detected_by":det,"base_note":(notes[0] if notes else "applies to the HEAD of /repo at the time of the last regression run"),"source":"written by an independent sub-agent given only the property text and a scratch worktree"},open(d+'/meta.json','w'),indent=1)
 PY
